@@ -268,7 +268,12 @@ func WithClosures(fn *ssa.Function) []*ssa.Function {
 // Strip removes value-preserving wrappers: ChangeType, Convert between
 // same-underlying types, MakeInterface, ChangeInterface, single-value Phi of
 // identical operands.
-func Strip(v ssa.Value) ssa.Value {
+func Strip(v ssa.Value) ssa.Value { return stripD(v, 0) }
+
+func stripD(v ssa.Value, depth int) ssa.Value {
+	if depth > 12 {
+		return v
+	}
 	for i := 0; i < 32; i++ {
 		switch x := v.(type) {
 		case *ssa.ChangeType:
@@ -283,7 +288,10 @@ func Strip(v ssa.Value) ssa.Value {
 			var first ssa.Value
 			same := true
 			for _, e := range x.Edges {
-				e = Strip(e)
+				if e == ssa.Value(x) {
+					continue // self edge of a loop phi
+				}
+				e = stripD(e, depth+1)
 				if first == nil {
 					first = e
 				} else if e != first {
